@@ -177,6 +177,14 @@ v("ok-la-greens-early-return", L, "        if np.iscomplexobj(vec) and not is_co
 v("ok-la-greens-comprehension", L, "        sol = []\n        for v in vec:\n            sol.append(solve(v))\n", "        sol = [solve(v) for v in vec]\n", [])
 v("ok-la-constrain-complement-mask", L, "    pivot_mask = np.zeros(constrained.shape[0], dtype=bool)\n    pivot_mask[pivot_rows] = True\n", "    pivot_mask = np.ones(constrained.shape[0], dtype=bool)\n    pivot_mask[pivot_rows] = False\n",
   [], extra=[(L, "keep = ~pivot_mask[constrained_coo.row]", "keep = pivot_mask[constrained_coo.row]")])
+v("la-pivots-by-row-norm", L, '    _, _, pivots = qr(kernel_vectors.T, mode="economic", pivoting=True)\n    return np.sort(pivots[: kernel_vectors.shape[1]])\n',
+  "    weights = np.linalg.norm(kernel_vectors, axis=1)\n    return np.sort(np.argsort(weights)[-kernel_vectors.shape[1] :])\n", ["C16", "C06", "C01"], "seed C01-r4")
+v("la-pivot-single-vector-largest-component", L, '    _, _, pivots = qr(kernel_vectors.T, mode="economic", pivoting=True)\n',
+  '    if kernel_vectors.shape[1] == 1:\n        return np.array([np.argmax(kernel_vectors[:, 0])], dtype=int)\n    _, _, pivots = qr(kernel_vectors.T, mode="economic", pivoting=True)\n', ["C16", "C06"], "seed C06-r4")
+v("ok-la-pivot-single-vector-largest-magnitude", L, '    _, _, pivots = qr(kernel_vectors.T, mode="economic", pivoting=True)\n',
+  '    if kernel_vectors.shape[1] == 1:\n        return np.array([np.argmax(np.abs(kernel_vectors[:, 0]))], dtype=int)\n    _, _, pivots = qr(kernel_vectors.T, mode="economic", pivoting=True)\n', [])
+v("la-pivots-qr-of-untransposed-kernel", L, 'qr(kernel_vectors.T, mode="economic", pivoting=True)', 'qr(kernel_vectors, mode="economic", pivoting=True)', ["C16"])
+v("ok-la-pivots-qr-indexed", L, '    _, _, pivots = qr(kernel_vectors.T, mode="economic", pivoting=True)\n', '    pivots = qr(kernel_vectors.T, mode="economic", pivoting=True)[2]\n', [])
 v("la-hermitian-flag-too-wide", L, "left_vecs is None or left_vecs is vecs or np.array_equal(left_vecs, vecs)", "left_vecs is None or left_vecs is vecs or left_vecs.shape == vecs.shape", ["C17"])
 # benign
 v("ok-la-matvec-rewritten", L, "return v - self._vecs @ (self._left_vecs.conj().T @ v)", "return v - self._vecs @ (self._left_vecs.T.conj() @ v)", [])
@@ -204,7 +212,8 @@ v("nof-annihilation-shift-sign", N, "coeff = coeff.xreplace({n_operator: n_opera
 v("nof-falling-factorial-offset", N, "coeff, *(n_operator - i for i in range(to_pair))", "coeff, *(n_operator - i for i in range(1, to_pair + 1))", ["C08", "C07"])
 v("nof-crossing-branch-swapped", N, "                    if orig_power == 1 or new_power == 1:", "                    if orig_power == -1 or new_power == -1:", ["C08", "C07"])
 v("nof-crossing-misses-higher-creators", N, ") + sum(int(pow == -One) for pow in powers[op_index + 1 :])", ")", ["C08", "C07"])
-v("nof-adjoint-keeps-powers", N, "(tuple(-power for power in powers), coeff.adjoint())", "(tuple(power for power in powers), coeff.adjoint())", ["C08", "C07"])
+v("nof-adjoint-keeps-powers", N, "(tuple(-power for power in powers), coeff.adjoint())", "(tuple(power for power in powers), coeff.adjoint())", ["C08", "C07", "C02"])
+v("nof-adjoint-coefficient-flips-only-i", N, "(tuple(-power for power in powers), coeff.adjoint())", "(tuple(-power for power in powers), coeff.xreplace({sympy.I: -sympy.I}))", ["C08", "C07", "C02"], "seed C02-r4: complex symbols are not conjugated")
 v("nof-expr-shift-on-creation", N, "                    if power > 0:\n                        # a * n_a = n_a + 1\n                        replacements[n_i] = n_i + power", "                    if power < 0:\n                        # a * n_a = n_a + 1\n                        replacements[n_i] = n_i + power", ["C08", "C07"])
 v("nof-phases-reordered", N, "            # Now multiply by the number part\n            partial = partial._multiply_expr(coeff)\n", "", ["C08", "C07"])
 v("ok-nof-reversed-tuple", N, "for i, power in reversed(list(enumerate(powers))):", "for i, power in reversed(tuple(enumerate(powers))):", [])
